@@ -155,7 +155,8 @@ PROPS["C16"] = {
     "level_text": "Lean 4 theorem (lock-order argument, generic): if a rank on lock classes increases along every edge of a graph, no configuration of goroutines whose "
                   "wait-while-holding pairs are edges of the graph contains a cycle of goroutines each waiting for a lock the next one holds - for any number of goroutines and any "
                   "schedule. Instantiated on every run with the lock graph the translator computes from the current sources (SSA + call graph; handlers called under a lock may call "
-                  "any exported operation): the proposed rank is checked edge by edge by the kernel (decide); no lock class is nested in itself; no function returns holding a lock. "
+                  "any exported operation): the proposed rank is checked edge by edge by the kernel (decide); no lock class is nested in itself; no function returns holding a lock; and a transition system of requests (made only at acquisition sites of the graph), grants "
+                  "and releases keeps the discipline in every reachable configuration (lrun_inv), so no execution reaches a mutex deadlock (reachable_deadlock_free). "
                   "Data races: not proved; the race detector and a hang watchdog run over generated concurrent programs (testing).",
     "level_note": "Trusted: Lean kernel, the lock-graph translator (its soundness is the tie to the code), race detector. Deadlock freedom is proved for mutexes only; race freedom is tested.",
     "technique": "Lean 4 proof (lock-order theorem instantiated with a lock graph regenerated from the source) + race detector and hang watchdog over random concurrent API programs",
